@@ -71,6 +71,31 @@ def gen(tier, rng):
                                         cpu=kw["cpu"], src_c={"g": "data", "v": tags(kw["pt"], kw["sw"], kw["sh"], rng)}, src_lay=lay,
                                         dst_lay={"k": "typed", "guard": 1} if typed else {"k": "slice", "guard": 1}, api="typed" if typed else "dyn",
                                         log=("src", "dst"), chk=("pipeline", "ret_ok", "near", "outside", "srcsame")))
+    # crop boxes narrower than any rational grid: one ulp wide and flush against the right / bottom edge, 1e-9 wide, just
+    # under one pixel -- confined to one source column / row, so every destination pixel comes from it
+    from props.c03 import f64bits, nextbelow
+    for pt in ("U8", "U8x4", "U16x3", "F32", "I32", "U16x2"):
+        for (sw, sh) in ((1, 1), (4, 3), (9, 2), (100, 2)):
+            W, H = float(sw), float(sh)
+            full_w, full_h = {"n": sw, "q": 1}, {"n": sh, "q": 1}
+            cells = [([f64bits(nextbelow(W)), 0, f64bits(W - nextbelow(W)), full_h], (sw - 1, -1)),
+                     ([0, f64bits(nextbelow(H)), full_w, f64bits(H - nextbelow(H))], (-1, sh - 1)),
+                     ([f64bits(nextbelow(W)), f64bits(nextbelow(H)), f64bits(W - nextbelow(W)), f64bits(H - nextbelow(H))], (sw - 1, sh - 1)),
+                     ([{"n": sw - 1, "q": 1}, 0, f64bits(nextbelow(1.0)), full_h], (sw - 1, -1)),
+                     ([f64bits(W - 1e-9), 0, f64bits(1e-9), full_h], (sw - 1, -1)),
+                     ([0, f64bits(H - 1e-9), full_w, f64bits(1e-9)], (-1, sh - 1)),
+                     ([f64bits(1e-300), f64bits(1e-300), f64bits(1e-300), f64bits(1e-300)], (0, 0))]
+            for (crop, cell) in cells:
+                for (dw, dh) in ((1, 1), (3, 2), (70, 1), (2, 9)):
+                    n += 1
+                    if tier == "quick" and rz.pick(n, 140, [0, 1]):
+                        continue
+                    lay = rz.pick(n, 141, [{"k": "image_ref", "guard": 1}, {"k": "crop_ref", "pad": [0, 1, 0, 0], "guard": 1}, {"k": "image_ref", "guard": 2}])
+                    c = rz.resize_case(pt, sw, sh, dw, dh, alg="nearest", alpha=False, cpu=rz.pick(n, 130, rz.CPUS),
+                                       src_c={"g": "data", "v": tags(pt, sw, sh, rng)}, src_lay=lay, dst_lay={"k": "slice", "guard": 1},
+                                       log=("src", "dst"), chk=("ret_ok", "near_cell", "outside", "srcsame"), echo={"cell": list(cell)})
+                    c["opt"]["crop"] = crop
+                    cases.append(c)
     # extreme ratios in strips
     for pt in ("U8", "U16x3", "F32x4", "U8x4", "I32"):
         for (sw, sh, dw, dh) in ((200, 1, 1, 1), (1, 200, 3, 1), (1, 1, 97, 2), (3, 2, 120, 1), (255, 1, 2, 1), (2, 1, 255, 1)):
